@@ -751,7 +751,7 @@ class SAMIParser(HTMLParser):
         data = data.replace('<i/>', '<i>')
 
         # fix awkward tags found in some SAMIs
-        data = data.replace(';>', '>')
+        data = re.sub(r'(<[^<>]*);>', r'\1>', data)
         HTMLParser.feed(self, data)
 
         # close any tags that remain in the queue
